@@ -110,3 +110,41 @@ pub fn install_log_sink() {
     let _ = log::set_logger(&SINK);
     log::set_max_level(log::LevelFilter::Trace);
 }
+
+/// The repository's own command-line tool (`jbk`, src/bin/jbk), built by `./run` from /repo's
+/// manifest into `<target>/jbk-cli`: the simulator drives it as a separate process, the way an
+/// administrator would (`jbk check`, `jbk locate`). `VERIF_JBK_BIN` overrides the place.
+pub fn jbk_cli() -> std::path::PathBuf {
+    if let Ok(p) = std::env::var("VERIF_JBK_BIN") {
+        return p.into();
+    }
+    let exe = std::env::current_exe().expect("current_exe");
+    let p = exe
+        .parent()
+        .and_then(|p| p.parent())
+        .map(|t| t.join("jbk-cli").join("release").join("jbk"))
+        .unwrap_or_else(|| "/verif/sim/target/jbk-cli/release/jbk".into());
+    if !p.is_file() {
+        harness_error(&format!("{} is missing (./run builds it: cargo build --release --features build_bin,lz4,lzma --bin jbk)", p.display()));
+    }
+    p
+}
+
+/// Runs the command-line tool; returns (standard output, standard error, how it ended: "exit:N" or
+/// "signal:N"). The child gets no input and a quiet environment.
+pub fn run_jbk_cli(cli: &std::path::Path, args: &[&std::ffi::OsStr]) -> (String, String, String) {
+    let out = std::process::Command::new(cli)
+        .args(args)
+        .stdin(std::process::Stdio::null())
+        .env_remove("RUST_LOG")
+        .env("RUST_BACKTRACE", "0")
+        .output()
+        .unwrap_or_else(|e| harness_error(&format!("cannot start {}: {e}", cli.display())));
+    use std::os::unix::process::ExitStatusExt;
+    let how = match (out.status.code(), out.status.signal()) {
+        (Some(c), _) => format!("exit:{c}"),
+        (None, Some(s)) => format!("signal:{s}"),
+        _ => "unknown".to_string(),
+    };
+    (String::from_utf8_lossy(&out.stdout).to_string(), String::from_utf8_lossy(&out.stderr).to_string(), how)
+}
